@@ -216,36 +216,55 @@ def run(tier):
         V.violation("frames-trace:%s:%s" % (ev.get("ev"), name.split("/")[0] + "/" + name.split("/")[1] if "/" in name else name),
                     "Trace_VMFrames rejects event %s of the run `%s`: %s (stack limit at entry, DepthBound, TailCallNoGrowth, OffsetsMonotone)\n%s" % (at, name, json.dumps(ev), src),
                     {"events": allf[max(0, (at or 1) - 30):(at or 1) + 2], "src": src})
-    # ---- trace validation: gc accounting per run (strict contract; the coded overshoot is told apart)
-    strict_rej = coded_rej = 0
+    # ---- trace validation: gc accounting.  All runs are concatenated (a `base` event starts each) and validated by TLC
+    # against the contract; a run the contract rejects is validated again on its own, also against the `report` variant
+    strict_rej = report_rej = 0
+    prepared = []
     for name, evs, src, rep in gc_runs:
-        evs = [e for e in evs if e["ev"] in ("base", "alloc", "oom", "free")]
+        evs = [dict(e) for e in evs if e["ev"] in ("base", "alloc", "oom", "free")]
         # only the heap of the running thread has a limit: keep its events
         heaps = {e.get("heap") for e in evs if e.get("limit", -1) >= 0}
         evs = [e for e in evs if e["ev"] == "base" or e.get("heap") in heaps]
-        if len(evs) < 2:
+        if len(evs) < 2 or evs[0]["ev"] != "base":
             continue
         first_alloc = next((e for e in evs if e["ev"] in ("alloc", "oom", "free")), None)
+        if first_alloc is None:
+            continue
         if first_alloc["ev"] == "alloc":
             evs[0]["before"] = first_alloc["allocated"] - first_alloc["total"]
         elif first_alloc["ev"] == "free":
             evs[0]["before"] = first_alloc["allocated"] + first_alloc["total"]
         else:
             evs[0]["before"] = first_alloc["allocated"]
-        over = [e for e in evs if e["ev"] == "alloc" and e["limit"] >= 0 and e["allocated"] > e["limit"]]
-        if not over:
-            continue          # quick path: nothing above the limit, the full validation below is for the suspicious runs
-        ok, at, _ = validate("Trace_MemLimit", "Trace_MemLimit_Strict", evs, "gc")
-        if not ok:
-            strict_rej += 1
-            ok2, at2, _ = validate("Trace_MemLimit", "Trace_MemLimit_Coded", evs, "gc2")
-            ev = evs[(at or 1) - 1]
-            if ok2:
-                V.violation("alloc-over-limit:by-less-than-header", "accounted memory %d exceeds the limit %d by less than one block header (run %s)" % (ev.get("allocated", 0), ev.get("limit", 0), name), dict(rep, event=ev))
-            else:
-                coded_rej += 1
-                ev2 = evs[(at2 or 1) - 1]
-                V.violation("alloc-over-limit:%s" % name.split("/")[0], "gc accounting trace rejected at %s (run %s)" % (json.dumps(ev2), name), dict(rep, event=ev2))
+        prepared.append((name, evs, src, rep))
+    gc_events = sum(len(p[1]) for p in prepared)
+    def bisect(runs):
+        """runs whose own trace the contract rejects"""
+        if not runs:
+            return []
+        ok, at, _ = validate("Trace_MemLimit", "Trace_MemLimit_Strict", [e for r in runs for e in r[1]], "gc")
+        if ok:
+            return []
+        if len(runs) == 1:
+            return [(runs[0], at)]
+        # the rejected event tells which run it is in
+        k, seen = 0, 0
+        for idx, r in enumerate(runs):
+            seen += len(r[1])
+            if at is not None and at <= seen:
+                k = idx
+                break
+        return bisect([runs[k]]) + bisect(runs[k + 1:])
+    for (name, evs, src, rep), at in bisect(prepared):
+        strict_rej += 1
+        ev = evs[(at or 1) - 1]
+        ok2, at2, _ = validate("Trace_MemLimit", "Trace_MemLimit_Report", evs, "gc2")
+        if ok2:
+            V.violation("alloc-over-limit:error-value-after-oom", "accounted memory %d exceeds the limit %d: the value reporting the OutOfMemory error is allocated without the limit (run %s)" % (ev.get("allocated", 0), ev.get("limit", 0), name), dict(rep, event=ev))
+        else:
+            report_rej += 1
+            ev2 = evs[(at2 or 1) - 1]
+            V.violation("gc-accounting:%s:%s" % (ev2.get("ev"), name.split("/")[0]), "gc accounting trace rejected at %s (run %s)" % (json.dumps(ev2), name), dict(rep, event=ev2))
     rc = V.finish()
     vlib.write_evidence(PID, tier, "model_checking", {
         "states": m1.distinct + m4.distinct + m5.distinct, "transitions": m1.generated + m4.generated + m5.generated,
@@ -253,7 +272,7 @@ def run(tier):
         "samples": [loop_src(ctxs[-1]["ctx"], ctxs[-1]["ty"], ctxs[-1]["shape"], 60)],
         "evaluations": len(res), "distinct_nontrivial": len(ctxs),
         "tail_contexts": len(ctxs), "tail_loops_constant_stack": tail_ok, "frame_events_validated": len(allf), "frame_trace_accepted": fr_ok,
-        "gc_runs": len(gc_runs), "gc_traces_rejected_strict": strict_rej, "gc_traces_rejected_as_coded": coded_rej,
+        "gc_runs": len(gc_runs), "gc_traces_rejected_strict": strict_rej, "gc_traces_rejected_with_report_allowance": report_rej, "gc_events_validated": gc_events,
         "memlimit_as_coded_predicts_overshoot": m2.violation is not None,
         "rule": "tail-position contexts enumerated by TLC (TailCtx.tla, depth <= %d, Int and Bool loops, direct / mutual / through a closure / over-application), each run for 60 iterations with frame events (validated against Trace_VMFrames) and 10^5 iterations under a 4096-slot stack limit (peak stack compared); non-tail recursion x stack limits; allocation templates x memory limits with gc events validated against Trace_MemLimit; interrupt from another OS thread; distinct_nontrivial = tail contexts" % (2 if tier == "quick" else 3),
         "exhaustive": False, "known_findings_hit": {k: v[1] for k, v in V.known_hits.items()},
